@@ -5,16 +5,21 @@ package server
 // Contracts for the govc verifier (see /verif/DESIGN.md). Comment-only: declares nothing.
 
 // helpers that only compute the per-target key of a task
+// targetOf: the per-target key of a task record - the URI of its milvus target, otherwise its kafka address
+//@ spec milvusURIOf(p model.MilvusConnectParam) string = ite(p.URI != "", p.URI, uriOf(p.Host, p.Port, p.EnableTLS))
+//@ spec targetOf(info *meta.TaskInfo) string = ite(milvusURIOf(info.MilvusConnectParam) != "", milvusURIOf(info.MilvusConnectParam), info.KafkaConnectParam.Address)
 //@ func GetMilvusURI
-//@   props C06 C11
+//@   props C06 C11 C10
+//@   ensures result == milvusURIOf(milvusConnectParam)
 //@   modifies nothing
 //@ func GetKafkaAddress
-//@   props C06 C11
+//@   props C06 C11 C10
 //@   ensures result == kafkaConnectParam.Address
 //@   modifies nothing
 //@ func getTaskUniqueIDFromInfo
-//@   props C06 C11
+//@   props C06 C11 C10
 //@   requires info != nil
+//@   ensures [the-key-of-a-task-is-its-target] result == targetOf(info)
 //@   modifies nothing
 
 // ---- C06 / C11: pausing a task -------------------------------------------------------------------------
@@ -187,10 +192,11 @@ package server
 //@   requires e != nil && e.metaStoreFactory != nil
 //@   requires e.collectionNames.data != nil && e.collectionNames.excludeData != nil && e.collectionNames.extraInfos != nil
 // only what is handed to the logger matters here: the task helpers are treated as unknown calls
-//@   opaque pauseTaskWithReason getTaskUniqueIDFromInfo startInternal
-//@   private MetaCDC.collectionNames maps(string;model.ExtraInfo) meta.TaskInfo.ExtraInfo
+//@   opaque pauseTaskWithReason startInternal
+//@   private MetaCDC.collectionNames maps(string;model.ExtraInfo) meta.TaskInfo.ExtraInfo meta.TaskInfo.MilvusConnectParam meta.TaskInfo.KafkaConnectParam arrays(*meta.TaskInfo)
 // C10: the bookkeeping rebuilt at restart is what the stored tasks imply - the user-role flag of a target is held as
 // soon as one of its tasks holds it, whatever the order in which the tasks are reloaded
+//@   loop 1 invariant [every-reloaded-task-with-the-user-role-flag-holds-the-flag-of-its-target] forall j int :: {taskInfos[j]} 0 <= j && j <= rangeindex ==> taskInfos[j] != nil && (taskInfos[j].ExtraInfo.EnableUserRole ==> e.collectionNames.extraInfos[targetOf(taskInfos[j])].EnableUserRole)
 //@   loop 1 invariant [reloading-a-task-never-frees-a-user-role-flag-recorded-for-an-earlier-task] forall k string :: {mget(e.collectionNames.extraInfos, k)} prev(e.collectionNames.extraInfos[k].EnableUserRole) ==> e.collectionNames.extraInfos[k].EnableUserRole
 
 // ---- C19 / C10: the duplicate-detection bookkeeping ------------------------------------------------------------
